@@ -374,14 +374,46 @@ macro_rules! hex_real {
     };
 }
 hex_real!(hex_real_1, 1);
-hex_real!(hex_real_2, 2);
 timed!(timed_frame_short, 7);
 timed!(timed_frame_long, 14);
 
-registry!(ser_me_bds05, ser_me_bds06, ser_me_bds08, ser_me_bds09, ser_me_bds61, ser_me_bds62, ser_me_bds65, ser_me_tc00, ser_me_tc23, ser_me_tc24, ser_me_tc25, ser_me_tc27, ser_me_tc30,
+
+// ------------------------------------------------------------ (d) Comm-B selector with EVERY combination of registers
+// (the shape space "every Comm-B register combination" of the property): the selector value produced by
+// the real reader of commb.rs, with each register hypothesis accepting (a sample value) or rejecting
+// nondeterministically (selstubs.rs), is serialised: Ok, no duplicate key, finite numbers.
+with_selector_stubs! {
+    fn ser_selector_df20(s) {
+        let a: [u8; 7] = s.bytes();
+        let ac = s.u16();
+        let mut cur = deku::no_std_io::Cursor::new(&a[..]);
+        let mut reader = Reader::new(&mut cur);
+        if let Ok(sel) = DF20DataSelector::from_reader_with_ctx(&mut reader, AC13Field(ac)) {
+            let (r, rec) = record(&sel);
+            vcover!(r.is_ok() && sel.bds40.is_some() && sel.bds50.is_some() && sel.bds60.is_some() && sel.bds05.is_some());
+            ok_clean(&r, &rec);
+            core::mem::forget(sel);
+        }
+    }
+}
+with_selector_stubs! {
+    fn ser_selector_df21(s) {
+        let a: [u8; 7] = s.bytes();
+        let mut cur = deku::no_std_io::Cursor::new(&a[..]);
+        let mut reader = Reader::new(&mut cur);
+        if let Ok(sel) = DF21DataSelector::from_reader_with_ctx(&mut reader, ()) {
+            let (r, rec) = record(&sel);
+            vcover!(r.is_ok() && sel.bds40.is_some() && sel.bds50.is_some() && sel.bds60.is_some() && sel.bds17.is_some());
+            ok_clean(&r, &rec);
+            core::mem::forget(sel);
+        }
+    }
+}
+
+registry!(ser_selector_df20, ser_selector_df21, ser_me_bds05, ser_me_bds06, ser_me_bds08, ser_me_bds09, ser_me_bds61, ser_me_bds62, ser_me_bds65, ser_me_tc00, ser_me_tc23, ser_me_tc24, ser_me_tc25, ser_me_tc27, ser_me_tc30,
           ser_bds10, ser_bds17, ser_bds18, ser_bds19, ser_bds20, ser_bds21, ser_bds30, ser_bds40, ser_bds44, ser_bds45, ser_bds50, ser_bds60,
           hex6_real_format, top_df0, top_df4, top_df5, top_df11, top_df16, top_df20_empty, top_df21_empty, top_df19, top_df24,
           top_adsb_bds05, top_adsb_bds06, top_adsb_bds08, top_adsb_bds09, top_adsb_bds61, top_adsb_bds62, top_adsb_bds65,
           top_commb_bds10, top_commb_bds17, top_commb_bds20, top_commb_bds30, top_commb_bds40, top_commb_bds44, top_commb_bds45,
           top_commb_bds50, top_commb_bds60, top_commb_bds05,
-          timed_frame_short, timed_frame_long, hex_real_1, hex_real_2);
+          timed_frame_short, timed_frame_long, hex_real_1);
